@@ -18,6 +18,7 @@ Not decided: equality of scan results after reload; stream chunking.
 """
 from .. import cfgutil as cu
 from .. import paths
+from .C14 import canon
 
 USES_PARSERS = True
 LEVEL = 'other'
@@ -405,6 +406,77 @@ def r8_4(ctx):
                'every return after the pointer->reference swap passes the restoring loop to its end')
 
 
+def r8_4b(ctx):
+    """both passes over the relocation list are total: in every loop of
+    yr_arena_save_stream that advances a list cursor (`reloc = reloc->next`) and stores
+    into the slot the entry designates, every iteration reaches that store - an entry
+    skipped by one pass and not by the other leaves a reference where a pointer belongs
+    (or the other way round) in the live rules"""
+    f = ctx.fn('yr_arena_save_stream', 'libyara/arena.c')
+    k = 0
+    for loop in f.all_nodes():
+        if loop['k'] not in ('while', 'for', 'do'):
+            continue
+        adv = None
+        for x in f.walk(loop):
+            if x['k'] == 'bin' and x['op'] == '=':
+                l = cu.strip_casts(f, f.kid(x, 0))
+                r = cu.strip_casts(f, f.kid(x, 1))
+                if l is not None and l['k'] == 'ref' and r is not None and r['k'] == 'member' and \
+                        r['fld'] == 'next' and canon(f, f.kid(r, 0)) == l['name']:
+                    adv = (x, l['name'])
+        if adv is None:
+            continue
+        cur = adv[1]
+
+        def is_slot_store(n):
+            if n['k'] != 'call' or n.get('callee') != 'memcpy':
+                return False
+            d = f.call_args(n)[0]
+            ds = cu.strip_casts(f, d)
+            if ds is not None and cu.stable_def_of(f, ds) is not None:
+                d = cu.stable_def_of(f, ds)
+            txt = canon(f, d)
+            return ('%s->offset' % cur) in txt and any(
+                x['k'] == 'member' and x['fld'] == 'data' for x in f.walk(d))
+        stores = [x for x in f.walk(loop) if is_slot_store(x)]
+        if not stores:
+            continue
+        k += 1
+        advs = [x for x in f.walk(loop) if x['k'] == 'bin' and x['op'] == '=' and
+                canon(f, f.kid(x, 0)) == cur and canon(f, f.kid(x, 1)) == '%s->next' % cur]
+        adv_ids = set(x['i'] for x in advs)
+        bad = []
+        nbm = f.node_block()
+        body = f.kids(loop)[-1]
+        start = None
+        for x in f.walk(body):
+            if x['i'] in nbm:
+                start = nbm[x['i']]
+                break
+
+        def step(n, facts):
+            if is_slot_store(n):
+                return facts | {'stored'}
+            if n['i'] in adv_ids:
+                if 'stored' not in facts:
+                    bad.append(n)
+                return None
+            if n['k'] == 'ret':
+                return None
+            return facts
+        if start is not None:
+            paths.explore(f, set(), step, None, start_block=start[0], start_index=start[1], max_states=256)
+        ctx.ob('R8.4', 'yr_arena_save_stream:pass#%d:every-entry-converted' % k, not bad,
+               f.loc(bad[0]) if bad else f.loc(loop),
+               'every iteration of this pass over the relocation list stores into the entry\'s slot'
+               if not bad else
+               'an iteration of this pass over the relocation list moves on to the next entry without '
+               'storing into the slot: that entry keeps its reference (or its pointer) while the others '
+               'are converted, and the live rules are corrupted by saving them')
+    ctx.require(k >= 2 or ctx.fixture, 'the two passes over the relocation list were not recognised (%d)' % k)
+
+
 ZERO_KIND = {'yr_arena_allocate_struct': 'Z', 'yr_arena_allocate_zeroed_memory': 'Z',
              'yr_arena_allocate_memory': 'N', 'yr_arena_write_data': 'W',
              'yr_arena_write_string': 'W', 'yr_arena_write_uint32': 'W'}
@@ -550,11 +622,13 @@ def r8_6(ctx):
     r = prog.records.get('YR_RULES')
     ctx.require(r is not None, 'record YR_RULES not found')
     assigned = set()
-    for a in f.all_nodes():
-        if a['k'] == 'bin' and a['op'] == '=':
-            l = f.kid(a, 0)
-            if l is not None and l['k'] == 'member' and l.get('rec') == 'YR_RULES':
-                assigned.add(l['fld'])
+    # the function and the static helpers it is built from
+    for g_ in cu.family(prog, f):
+        for a in g_.all_nodes():
+            if a['k'] == 'bin' and a['op'] == '=':
+                l = g_.kid(a, 0)
+                if l is not None and l['k'] == 'member' and l.get('rec') == 'YR_RULES':
+                    assigned.add(l['fld'])
     groups = {}
     for x in r['fields']:
         g = ('anon', x['anon']) if x.get('anon') else ('f', x['name'])
@@ -595,6 +669,7 @@ def run(ctx):
     r8_3(ctx, recs)
     ctx.floor('R8.3', 15)
     r8_4(ctx)
+    r8_4b(ctx)
     r8_5(ctx)
     ctx.floor('R8.5', 10)
     r8_6(ctx)
